@@ -156,6 +156,9 @@ pub fn run(prop: &str, args: &Args) -> i32 {
     // families
     let mut fam_json = vec![];
     for (fam, level, children) in &b.families {
+        if reduced() && *fam == Family::Promo {
+            continue;
+        }
         let mut child_props = props;
         child_props.full_sweep = false;
         let mut root_props = props;
